@@ -235,8 +235,24 @@ def lexicon_rows(ctx):
     RS = Sym(E, rfa)
     names = rfa.fn.local_names()
     wp = [(b, t) for b, t in calls_named(rfa, "new") if "WordParam" in callee_of(t)["path"]]
+    direct = {}          # the columns are parsed straight into the fields of one WordParam value
+
+    def wp_field(pl):
+        fs = [e for e in pl["p"] if e != "*"]
+        if len(fs) == 1 and isinstance(fs[0], dict) and str(fs[0].get("o", "")).endswith("WordParam") and \
+                fs[0].get("n") in ("left_id", "right_id", "word_cost"):
+            return fs[0]["n"]
+        return None
     if len(wp) != 1:
-        raise EngineError("FMT: WordParam::new call in parse_csv not found")
+        n_direct = 0
+        for b, i, s0 in rfa.stmts():
+            if "lhs" in s0 and wp_field(s0["lhs"]):
+                n_direct += 1
+        for b, t in rfa.calls():
+            if wp_field(t["dest"]):
+                n_direct += 1
+        if not n_direct:
+            raise EngineError("FMT: WordParam::new call in parse_csv not found")
     # switch on field_cnt
     arms = {}
     for b in sorted(rfa.live_blocks()):
@@ -262,11 +278,21 @@ def lexicon_rows(ctx):
             if t["k"] == "call" and not t["dest"]["p"] and t["dest"]["l"] in names and \
                     names[t["dest"]["l"]] in ("surface", "left_id", "right_id", "word_cost"):
                 col_of_local[t["dest"]["l"]] = k
-    wb, wt = wp[0]
-    got = []
-    for a in wt["args"]:
-        bl = base_local(rfa, a)
-        got.append(col_of_local.get(bl[0]) if bl else None)
+            for s in rfa.blocks[bb]["stmts"]:
+                if "lhs" in s and wp_field(s["lhs"]):
+                    direct.setdefault(wp_field(s["lhs"]), set()).add(k)
+            if t["k"] == "call" and wp_field(t["dest"]):
+                direct.setdefault(wp_field(t["dest"]), set()).add(k)
+    if len(wp) == 1:
+        wb, wt = wp[0]
+        got = []
+        for a in wt["args"]:
+            bl = base_local(rfa, a)
+            got.append(col_of_local.get(bl[0]) if bl else None)
+    else:
+        wb = sorted(rfa.live_blocks())[0]
+        got = [sorted(direct.get(n, [None]))[0] if len(direct.get(n, [])) == 1 else None
+               for n in ("left_id", "right_id", "word_cost")]
     ok = got == [1, 2, 3]
     ctx.ob("FMT", "lex.csv|reader|columns-1,2,3->WordParam::new(left,right,cost)", ok, rfa.loc(wb),
            "parse_csv stores CSV column 1, 2, 3 into left_id, right_id, word_cost" if ok else
